@@ -48,6 +48,7 @@ type contender struct {
 	delay  int64              // ns by which the next lease keep-alive reply is delayed (atomic); later keep-alives are lost
 	slowed int64              // number of keep-alive streams opened since the delay was set
 	inited bool
+	noRevoke int64 // != 0: LeaseRevoke calls of this member fail (etcd cannot be reached while it resigns)
 }
 
 type slowStream struct {
@@ -81,7 +82,13 @@ func newContender(e *etcdgate.Etcd, root, name string, idn uint64) (*contender, 
 	lc.Level = zap.NewAtomicLevelAt(zap.FatalLevel)
 	lc.OutputPaths, lc.ErrorOutputPaths = []string{"/dev/null"}, []string{"/dev/null"}
 	cl, err := clientv3.New(clientv3.Config{Endpoints: []string{e.EP}, DialTimeout: 5 * time.Second, LogConfig: &lc,
-		DialOptions: []grpc.DialOption{grpc.WithStreamInterceptor(func(ctx context.Context, desc *grpc.StreamDesc, cc *grpc.ClientConn, method string,
+		DialOptions: []grpc.DialOption{grpc.WithUnaryInterceptor(func(ctx context.Context, method string, req, reply interface{}, cc *grpc.ClientConn,
+			invoker grpc.UnaryInvoker, opts ...grpc.CallOption) error {
+			if method == "/etcdserverpb.Lease/LeaseRevoke" && atomic.LoadInt64(&c.noRevoke) != 0 {
+				return fmt.Errorf("etcd unreachable (injected): the lease cannot be revoked")
+			}
+			return invoker(ctx, method, req, reply, cc, opts...)
+		}), grpc.WithStreamInterceptor(func(ctx context.Context, desc *grpc.StreamDesc, cc *grpc.ClientConn, method string,
 			streamer grpc.Streamer, opts ...grpc.CallOption) (grpc.ClientStream, error) {
 			s, err := streamer(ctx, desc, cc, method, opts...)
 			if err != nil || method != "/etcdserverpb.Lease/LeaseKeepAlive" {
@@ -291,12 +298,27 @@ func one(e *etcdgate.Etcd, plain *clientv3.Client, bi int, beh []cli.Step) ([]tr
 			c.mem.ResetLeader()
 			c.inited = false
 		case "Resign":
+			// every second resignation happens while etcd cannot be reached for the revoke: the member must stop trusting
+			// its lease at once all the same; the record then disappears when the lease runs out
+			unreachable := si%2 == 1
+			ev["revoke_unreachable"] = unreachable
+			if unreachable {
+				atomic.StoreInt64(&c.noRevoke, 1)
+			}
 			if c.cancel != nil {
 				c.cancel()
 			}
 			c.am.ResetAllocatorGroup(tso.GlobalDCLocation)
 			c.mem.ResetLeader()
 			c.inited = false
+			ev["check_right_after"] = c.mem.GetLeadership().Check()
+			if unreachable {
+				dl := time.Now().Add(time.Duration(ttl+3) * time.Second)
+				for owner() == c.name && time.Now().Before(dl) {
+					time.Sleep(50 * time.Millisecond)
+				}
+				atomic.StoreInt64(&c.noRevoke, 0)
+			}
 		case "DeleteKey":
 			ev["m"] = ""
 			plain.Delete(ctx, root+"/leader")
